@@ -98,11 +98,10 @@ theorem roundtrip_v2 (rw : RW) (hok : RWok rw) (vals : List FVal) (hw : WellType
     rw [List.append_nil] at this
     rw [this]; rfl
 
-/-- **C04 (round trip, version 1).** Extension fields are not sent and come back as zero. -/
-theorem roundtrip_v1 (rw : RW) (hok : RWok rw) (vals : List FVal) (hw : WellTyped rw vals) :
+/-- version 1 needs only the BASE fields to be well-typed: the extension fields are not sent -/
+theorem roundtrip_v1_base (rw : RW) (hok : RWok rw) (vals : List FVal)
+    (hw' : ∀ f ∈ rw.fields.filter (fun f => !f.isExt), wellTyped f (valAt vals f.index) = true) :
     ∃ p, encode rw false vals = .ok p ∧ p.length = rw.sizeNormal.toNat ∧ decode rw false p = .ok (canonV1 rw vals) := by
-  have hw' : ∀ f ∈ rw.fields.filter (fun f => !f.isExt), wellTyped f (valAt vals f.index) = true :=
-    fun f hf => hw f (List.mem_filter.mp hf).1
   have hfl : (rw.fields.filter (fun f => false || !f.isExt)) = rw.fields.filter (fun f => !f.isExt) := by simp
   have hlen := flatMap_len vals _ hw'
   refine ⟨(rw.fields.filter (fun f => !f.isExt)).flatMap (fun f => encField f (valAt vals f.index)), ?_, by rw [hlen, hok.base], ?_⟩
@@ -113,6 +112,12 @@ theorem roundtrip_v1 (rw : RW) (hok : RWok rw) (vals : List FVal) (hw : WellType
     have := decFields_encode vals (rw.fields.filter (fun f => !f.isExt)) [] (zeroVals rw) hw'
     rw [List.append_nil] at this
     rw [this]; rfl
+
+/-- **C04 (round trip, version 1).** Extension fields are not sent and come back as zero. -/
+theorem roundtrip_v1 (rw : RW) (hok : RWok rw) (vals : List FVal) (hw : WellTyped rw vals) :
+    ∃ p, encode rw false vals = .ok p ∧ p.length = rw.sizeNormal.toNat ∧ decode rw false p = .ok (canonV1 rw vals) :=
+  roundtrip_v1_base rw hok vals (fun f hf => hw f (List.mem_filter.mp hf).1)
+
 
 /-- the canonical form is a fixed point: re-encoding what was decoded gives the same bytes (floats bit for bit) -/
 theorem canon_idempotent_num (f : DField) (xs : List UInt64) (h : xs.length = nElems f) :
